@@ -49,10 +49,16 @@ class FeatureMonitor(taps.Monitor):
     def pre(self, ctx, args, kw):
         x = args[0] if args else None
         if isinstance(x, np.ndarray):
-            if x.dtype.kind != "f" or not np.isfinite(x).all():
+            if x.dtype.kind == "f" and not np.isfinite(x).all():
+                # missing values in the data (depth maps, masked-out regions): what the feature computes from them is not judged,
+                # that it leaves its input alone is
+                return {"kind": "nonfinite", "x": x.copy(), "d": None}
+            if x.dtype.kind != "f":
                 return None
             return {"kind": "array", "x": x.copy(), "argd": digest([list(args[1:]), dict(kw)]), "w": bool(x.flags.writeable)}
-        if not is_image(x) or x.pixels.dtype.kind != "f" or not np.isfinite(x.pixels).all():
+        if is_image(x) and x.pixels.dtype.kind == "f" and not np.isfinite(x.pixels).all():
+            return {"kind": "nonfinite", "x": x.pixels.copy(), "d": digest(x)}
+        if not is_image(x) or x.pixels.dtype.kind != "f":
             return None
         from menpo.image import BooleanImage
         if isinstance(x, BooleanImage):
@@ -65,6 +71,12 @@ class FeatureMonitor(taps.Monitor):
         import menpo.image as mi
         x = args[0]
         f = self.fname
+        if st["kind"] == "nonfinite":
+            now = x if isinstance(x, np.ndarray) else x.pixels
+            ctx.tap("input_with_missing_values_left_alone", "calls"); ctx.tap("input_with_missing_values_left_alone", "checked")
+            if now.shape != st["x"].shape or not np.array_equal(now, st["x"], equal_nan=True) or (st["d"] is not None and digest(x) != st["d"]):
+                ctx.fail("feature_modified_its_input_array" if isinstance(x, np.ndarray) else "feature_modified_its_input_image", cls=f, mech="input_with_missing_values")
+            return
         if digest([list(args[1:]), dict(kw)]) != st["argd"]:
             ctx.fail("feature_modified_one_of_its_arguments", cls=f, mech=",".join(sorted(kw)) or "positional")
         how = "after_success" if exc is None else "after_" + type(exc).__name__
@@ -231,6 +243,20 @@ def w_features(ctx, rng, i):
     if fname in ("gradient", "gaussian_filter", "no_op") and rng.random() < 0.25:
         shp = tuple(int(v) for v in rng.integers(3, 12, 3))      # these features are n-dimensional
     im = make_image(rng, cls, shp, C, dtype, mk)
+    if rng.random() < 0.08 and fname in ("gradient", "gaussian_filter", "igo", "double_igo", "es", "no_op", "compose"):
+        # a few missing values in the data (a depth map with holes)
+        im.pixels[rng.random(im.pixels.shape) < 0.05] = np.nan
+        import warnings as _w
+        with _w.catch_warnings():
+            _w.simplefilter("ignore")
+            for fn_ in (mf.es, mf.igo, mf.gradient, mf.no_op, lambda z: mf.gaussian_filter(z, 1.0)):
+                for arg_ in (im, im.pixels):
+                    try:
+                        fn_(arg_)
+                    except Exception:
+                        pass
+        ctx.count_case((fname, cls, "missing_values"), nontrivial=True)
+        return
     if fname == "gaussian_filter":
         opts = {"sigma": float(rng.uniform(0.3, 3.0))}
         r = mf.gaussian_filter(im, opts["sigma"]) if rng.random() < 0.5 else mf.gaussian_filter(im, sigma=opts["sigma"])
